@@ -285,49 +285,116 @@ var listSpecs = []listSpec{
 	{"(*services.subscriberServer).ListSnapshots", "snapshots", "services.isValidSnapshotName", ""},
 }
 
-// kindOfValidator: the string constant compared with segments[2] in the name validator.
+// strEval: partial evaluation of a string-valued SSA value under parameter bindings; unknown parts are "\x00".
+// Follows constants, concatenation, bound parameters and module helpers that return one string.
+func strEval(v ssa.Value, env map[*ssa.Parameter]ssa.Value, depth int) string {
+	if v == nil || depth > 8 {
+		return "\x00"
+	}
+	v = resolve(v)
+	switch x := v.(type) {
+	case *ssa.Const:
+		if s, ok := constString(x); ok {
+			return s
+		}
+	case *ssa.Parameter:
+		if b, ok := env[x]; ok {
+			return strEval(b, env, depth+1)
+		}
+	case *ssa.BinOp:
+		if x.Op == token.ADD {
+			return strEval(x.X, env, depth+1) + strEval(x.Y, env, depth+1)
+		}
+	case *ssa.Call:
+		cal := x.Call.StaticCallee()
+		if cal != nil && lastCtx != nil && lastCtx.inModule(cal) && len(cal.Blocks) > 0 && cal.Signature.Results().Len() == 1 {
+			ne := map[*ssa.Parameter]ssa.Value{}
+			for k, b := range env {
+				ne[k] = b
+			}
+			for i, p := range cal.Params {
+				if i < len(x.Call.Args) {
+					ne[p] = x.Call.Args[i]
+				}
+			}
+			out, first := "", true
+			for _, ret := range returnsOf(cal) {
+				r := strEval(retResult(ret, 0), ne, depth+1)
+				if first {
+					out, first = r, false
+				} else if r != out {
+					return "\x00"
+				}
+			}
+			if !first {
+				return out
+			}
+		}
+	}
+	return "\x00"
+}
+
+// kindOfValidator: the string constant compared with segments[2] in the name validator (possibly inside a shared
+// helper that takes the kind as a parameter).
 func kindOfValidator(fn *ssa.Function) string {
+	return kindOfValidatorEnv(fn, map[*ssa.Parameter]ssa.Value{}, 0)
+}
+
+func kindOfValidatorEnv(fn *ssa.Function, env map[*ssa.Parameter]ssa.Value, depth int) string {
 	for _, b := range fn.Blocks {
 		for _, in := range b.Instrs {
 			bo, ok := in.(*ssa.BinOp)
-			if !ok || bo.Op != token.EQL {
+			if !ok || (bo.Op != token.EQL && bo.Op != token.NEQ) {
 				continue
 			}
-			s, isS := constString(bo.Y)
-			if !isS || s == "projects" || s == "" {
-				continue
-			}
-			// left side is segments[2]
-			if u, ok := bo.X.(*ssa.UnOp); ok {
-				if ia, ok := u.X.(*ssa.IndexAddr); ok {
-					if i, ok := constInt(ia.Index); ok && i == 2 {
-						return s
-					}
+			for _, pair := range [][2]ssa.Value{{bo.X, bo.Y}, {bo.Y, bo.X}} {
+				// one side is segments[2]
+				u, ok := pair[0].(*ssa.UnOp)
+				if !ok {
+					continue
 				}
+				ia, ok := u.X.(*ssa.IndexAddr)
+				if !ok {
+					continue
+				}
+				if i, ok := constInt(ia.Index); !ok || i != 2 {
+					continue
+				}
+				s := strEval(pair[1], env, 0)
+				if s != "" && !strings.Contains(s, "\x00") && s != "projects" {
+					return s
+				}
+			}
+		}
+	}
+	if depth < 2 && lastCtx != nil {
+		for _, ci := range callsIn(fn, false, func(cal *ssa.Function, _ ssa.CallInstruction) bool { return lastCtx.inModule(cal) && len(cal.Blocks) > 0 }) {
+			cal := ci.Common().StaticCallee()
+			ne := map[*ssa.Parameter]ssa.Value{}
+			for k, b := range env {
+				ne[k] = b
+			}
+			for i, p := range cal.Params {
+				if i < len(ci.Common().Args) {
+					ne[p] = ci.Common().Args[i]
+				}
+			}
+			if s := kindOfValidatorEnv(cal, ne, depth+1); s != "" {
+				return s
 			}
 		}
 	}
 	return ""
 }
 
-// prefixKind: the "/<kind>/" constant a prefix helper appends.
+// prefixKind: the "/<kind>/" constant a prefix helper appends (the known text after the last unknown part).
 func prefixKind(v ssa.Value) (string, bool) {
-	call, ok := resolve(v).(*ssa.Call)
-	if !ok {
-		return "", false
+	s := strEval(v, map[*ssa.Parameter]ssa.Value{}, 0)
+	if i := strings.LastIndex(s, "\x00"); i >= 0 {
+		s = s[i+1:]
 	}
-	cal := call.Call.StaticCallee()
-	if cal == nil {
-		return "", false
-	}
-	for _, b := range cal.Blocks {
-		for _, in := range b.Instrs {
-			if bo, ok := in.(*ssa.BinOp); ok && bo.Op == token.ADD {
-				if s, ok := constString(bo.Y); ok && strings.HasPrefix(s, "/") && strings.HasSuffix(s, "/") {
-					return strings.Trim(s, "/"), true
-				}
-			}
-		}
+	if strings.HasPrefix(s, "/") && strings.HasSuffix(s, "/") && len(s) > 2 {
+		return strings.Trim(s, "/"), true
 	}
 	return "", false
 }
@@ -401,8 +468,8 @@ func checkKeyset(c *Ctx, r *Rep, hk string, h *ssa.Function, sel *Stmt) {
 	term := sel.Terms[0].Call
 	okNext := false
 	why := "no NextPageToken assignment found"
-	var walk func(f *ssa.Function)
-	walk = func(f *ssa.Function) {
+	var walk func(f *ssa.Function, depth int)
+	walk = func(f *ssa.Function, depth int) {
 		for _, b := range f.Blocks {
 			for _, in := range b.Instrs {
 				call, ok := in.(*ssa.Call)
@@ -410,23 +477,71 @@ func checkKeyset(c *Ctx, r *Rep, hk string, h *ssa.Function, sel *Stmt) {
 					continue
 				}
 				cal := call.Call.StaticCallee()
-				if cal == nil || cal.Name() != "String" || !sources(call.Call.Args[0])["field:ID"] {
+				// a private helper that computes the token from the scanned rows: same test inside it, with its
+				// parameters bound to this call's arguments
+				if cal != nil && depth < 2 && c.inModule(cal) && len(cal.Blocks) > 0 && !c.EntShape().isGenerated(cal) && cal.Name() != "String" {
+					takesRows := false
+					for _, a := range call.Call.Args {
+						if isResultOf(a, term) {
+							takesRows = true
+						}
+					}
+					if takesRows {
+						bind := map[*ssa.Parameter]ssa.Value{}
+						for i, p := range cal.Params {
+							if i < len(call.Call.Args) {
+								bind[p] = call.Call.Args[i]
+							}
+						}
+						withBindMap(bind, func() { walk(cal, depth+1) })
+					}
 					continue
 				}
-				if !dependsOnCall(call.Call.Args[0], term) {
+				if cal == nil || cal.Name() != "String" {
+					continue
+				}
+				recv := call.Call.Args[0]
+				isID := sources(recv)["field:ID"]
+				if !isID {
+					// the id is taken through a function value handed in by the caller: func(row) uuid.UUID { return row.ID }
+					if dc, isCall := resolve(recv).(*ssa.Call); isCall && dc.Call.StaticCallee() == nil && !dc.Call.IsInvoke() {
+						if f := funcOf(resolve(dc.Call.Value)); f != nil && len(f.Params) >= 1 {
+							isID = true
+							for _, ret := range returnsOf(f) {
+								u, isU := resolve(retResult(ret, 0)).(*ssa.UnOp)
+								if !isU {
+									isID = false
+									continue
+								}
+								fa, isFA := u.X.(*ssa.FieldAddr)
+								if !isFA || fieldName(fa.X.Type(), fa.Field) != "ID" || resolve(fa.X) != ssa.Value(f.Params[len(f.Params)-1]) && len(f.FreeVars) > 0 {
+									isID = false
+								}
+							}
+						}
+					}
+				}
+				if !isID {
+					continue
+				}
+				if !dependsOnCall(recv, term) {
 					continue
 				}
 				// is this the token? it must be guarded by len(rows) >= pageSize over the scanned rows
 				for _, cd := range edgeConds(b) {
 					bo, isB := cd.V.(*ssa.BinOp)
-					if !isB || !(bo.Op == token.GEQ || bo.Op == token.EQL) || !cd.Pol {
+					if !isB {
+						continue
+					}
+					full := (bo.Op == token.GEQ || bo.Op == token.EQL) && cd.Pol || bo.Op == token.LSS && !cd.Pol
+					if !full {
 						continue
 					}
 					if l, isL := bo.X.(*ssa.Call); isL {
 						if bi, isBi := l.Call.Value.(*ssa.Builtin); isBi && bi.Name() == "len" {
 							if isResultOf(l.Call.Args[0], term) && sources(bo.Y)["field:PageSize"] {
 								// last scanned row: rows[len(rows)-1]
-								if lastElementOf(call.Call.Args[0], term) {
+								if lastElementOf(recv, term) {
 									okNext = true
 								} else {
 									why = "the token is not the id of the last scanned row"
@@ -440,10 +555,10 @@ func checkKeyset(c *Ctx, r *Rep, hk string, h *ssa.Function, sel *Stmt) {
 			}
 		}
 		for _, a := range f.AnonFuncs {
-			walk(a)
+			walk(a, depth)
 		}
 	}
-	walk(h)
+	walk(h, 0)
 	r.Check("C12.5", "C12.5:next-token@"+hk, sel.Pos, okNext, "next token = id of the last scanned row iff a full page was scanned", why)
 }
 
